@@ -7,6 +7,7 @@ in each scope; dotted paths select nested and imported definitions, including a 
 that carries the name of an import.  Oracle: an independent resolver over the model."""
 import itertools
 import os
+import re
 import time
 
 from .. import bind
@@ -124,7 +125,29 @@ LIA = lib_model("lia", (31, 32, 33))
 
 
 def lib_text(m):
-    return "proto %s\n\n" % m.name + "\n".join(render(m)) + "\n"
+    # each imported file has its own C name prefix: the C names of its definitions differ from the importer's homonyms
+    return "proto %s\n\noption c.name_prefix = \"%s\"\n\n" % (m.name, m.name.capitalize()) + "\n".join(render(m)) + "\n"
+
+
+C_TYPEDEF = re.compile(r"^typedef \w+ (\w+); // (\d+)bit", re.M)
+C_FIELD_F = re.compile(r"^\s+(\w+) f(?:\[\d+\])*;", re.M)
+
+
+def c_width_of_field_f(main_path, outdir):
+    """The C back end's view: the typedef named in the declaration of struct member `f`, and the width written next to that typedef
+    (main header or an imported file's header).  Returns (type name, width or None)."""
+    from ..cback import render_c_files
+    texts = render_c_files(main_path, outdir)
+    heads = "\n".join(t for n, t in texts.items() if n.endswith(".h"))
+    widths = {}
+    for name, w in C_TYPEDEF.findall(heads):
+        widths.setdefault(name, set()).add(int(w))
+    main_h = texts[[n for n in texts if n.endswith(".h") and n.startswith("t_")][0]]
+    m = C_FIELD_F.search(main_h)
+    if not m:
+        return None, None
+    ws = widths.get(m.group(1))
+    return m.group(1), (ws.pop() if ws and len(ws) == 1 else None)
 
 
 SITE_W = {("F", "b"): 1, ("A", "b"): 2, ("B", "b"): 3, ("C", "b"): 4, ("C", "a"): 5, ("B", "a"): 6, ("A", "a"): 7, ("F", "a"): 8}
@@ -390,6 +413,16 @@ def run_unit(unit):
                 out.count("layout_checks")
                 if not m or int(m.group(1)) != (exp_val * mult + 7) // 8:
                     viol("layout_uses_other_definition", "BYTES_LENGTH of %s is %s, expected %d" % (cname, m.group(1) if m else None, (exp_val * mult + 7) // 8))
+            if case["kind"] != "const":
+                # ... and the one the C back end names in the struct (every definition of X has its own width, written next to its typedef)
+                try:
+                    cname, cw = c_width_of_field_f(path, sc.sub("c%d" % k))
+                except Exception as e:  # noqa
+                    viol("c_rendering_failed:" + type(e).__name__, exc_summary(e)[:300])
+                    continue
+                out.count("c_checks")
+                if cw != exp_val:
+                    viol("c_struct_uses_other_definition", "struct member f is declared with C type %r, whose typedef says %s bit; the resolved definition has %d" % (cname, cw, exp_val))
             if k % 50 == 0:
                 out.sample(dict(case=dict(case, choice=dict(case["choice"])), resolved_width=got, schema=text[-500:]))
     return out.result()
@@ -409,12 +442,15 @@ def main(pid, tier):
     for need in ("kind:simple", "kind:dotted", "kind:shadow-import", "kind:const", "kind:two-uses", "shadowing"):
         if acc.classes.get(need, 0) < 1:
             g.append("no case of " + need)
+    if c["c_checks"] < 100:
+        g.append("C struct checks %d" % c["c_checks"])
     cov = dict(states=c["states"], transitions=c["transitions"], traces_validated_against_impl=c["traces"], evaluations=c["evaluations"],
-               distinct_nontrivial=c["nontrivial"], layout_checks=c["layout_checks"], corner_cases_both_outcomes_accepted=c["corner_first_component_without_rest"],
+               distinct_nontrivial=c["nontrivial"], layout_checks=c["layout_checks"], c_struct_checks=c["c_checks"], corner_cases_both_outcomes_accepted=c["corner_first_component_without_rest"],
                rule="skeleton file > A > B > C (+ imported files lib / lia as `al`, each with A > B): for the simple name X all 3^4 combinations of "
                     "declaration sites (per scope none/before/after) x 4 use scopes; 17 dotted uses x site combinations; a nested message named like "
                     "an import; constants as capacities; every declaration has a distinct bit width so the resolved definition is identified by "
-                    "nbits; oracle: independent resolver (innermost enclosing scope with a completed, textually earlier declaration; dotted paths "
+                    "nbits - by the parsed field, by the Python output's BYTES_LENGTH and by the typedef the C header names for the struct member "
+                    "(the imported files carry their own c.name_prefix); oracle: independent resolver (innermost enclosing scope with a completed, textually earlier declaration; dotted paths "
                     "through members); unresolvable => ReferencedTypeNotDefined/ReferencedConstantNotDefined at the use line; non-trivial = >= 2 "
                     "declaration sites populated", exhaustive=True, bound="depth 3, one name, %d cases" % len(cases(tier)))
     return finish(PID, tier, acc, cov, t0, assumptions=["resolver model bpmc/checks/c11.py:resolve"], guards=g)
